@@ -24,6 +24,41 @@ import (
 	"time"
 )
 
+// verifStressLoop re-runs a schedule-dependent counterexample on real goroutines until the Go
+// scheduler hits a failing interleaving (or the budget is used up).
+func verifStressLoop(fn func()) {
+	runtime.GOMAXPROCS(8)
+	deadline := time.Now().Add(25 * time.Second)
+	res := "REPLAY-PASSED"
+	iters := 0
+	for time.Now().Before(deadline) && iters < 20000 {
+		iters++
+		verifPos = 0
+		out := func() (out string) {
+			defer func() {
+				if r := recover(); r != nil {
+					switch v := r.(type) {
+					case verifViolation:
+						out = "VIOLATION-REPRODUCED: " + v.msg
+					case verifDiverged:
+						out = "REPLAY-DIVERGED: " + v.msg
+					default:
+						out = fmt.Sprintf("VIOLATION-REPRODUCED: PANIC: %v", r)
+					}
+				}
+			}()
+			fn()
+			return ""
+		}()
+		verifCleanup()
+		if out != "" {
+			res = out + fmt.Sprintf(" (iteration %d of the stress loop)", iters)
+			break
+		}
+	}
+	fmt.Println("VERIF-REPLAY-RESULT: " + res)
+}
+
 func TestVerifReplay(t *testing.T) {
 	name, err := verifLoad(os.Getenv("VERIF_CEX"))
 	if err != nil {
@@ -32,6 +67,10 @@ func TestVerifReplay(t *testing.T) {
 	fn := verifHarnesses[name]
 	if fn == nil {
 		t.Fatalf("VERIF-REPLAY-RESULT: REPLAY-ERROR: no harness %s", name)
+	}
+	if verifStress {
+		verifStressLoop(fn)
+		return
 	}
 	before := runtime.NumGoroutine()
 	done := make(chan string, 1)
@@ -87,6 +126,7 @@ type replayOutcome struct {
 type cexFile struct {
 	Harness string          `json:"harness"`
 	Tier    int             `json:"tier"`
+	Stress  bool            `json:"stress"`
 	Kind    string          `json:"kind"`
 	Msg     string          `json:"msg"`
 	Pkg     string          `json:"pkg"`
@@ -94,7 +134,7 @@ type cexFile struct {
 }
 
 func writeCex(path string, pi pkgInfo, v *sym.Violation, tier int) error {
-	c := cexFile{Harness: v.Harness, Tier: tier, Kind: v.Kind, Msg: v.Msg, Pkg: pi.HarnessDir, Nondet: v.Nondet}
+	c := cexFile{Harness: v.Harness, Tier: tier, Kind: v.Kind, Msg: v.Msg, Pkg: pi.HarnessDir, Nondet: v.Nondet, Stress: v.Schedule && v.Kind != "RACE-CANDIDATE" && v.Kind != "SAMPLE"}
 	b, err := json.MarshalIndent(c, "", " ")
 	if err != nil {
 		return err
@@ -113,6 +153,29 @@ func replayNative(scratch string, ov map[string]string, pi pkgInfo, v *sym.Viola
 	if v.Kind == "ASSERT-FAIL" || v.Kind == "PANIC" {
 		tries = 3 // Go randomises map iteration order
 	}
+	if v.Kind == "RACE-CANDIDATE" {
+		// confirmed only by the race detector on the real goroutines
+		var last replayOutcome
+		for i := 0; i < 15; i++ {
+			last = replayCexFileMode(scratch, ov, pi, cex, true)
+			last.Runs = i + 1
+			if strings.Contains(last.Output, "DATA RACE") {
+				last.Verdict = "reproduced"
+				last.Detail = "VIOLATION-REPRODUCED: DATA RACE reported by the race detector: " + firstLineAfter(last.Output, "DATA RACE")
+				return last
+			}
+		}
+		if last.Verdict == "reproduced" {
+			// some other failure reproduced (assertion/panic) while racing
+			return last
+		}
+		last.Verdict = "passed"
+		last.Detail = "race detector reported nothing in 15 runs"
+		return last
+	}
+	if v.Schedule {
+		tries = 2 // schedule-dependent: each run is a stress loop of up to 25 s
+	}
 	var last replayOutcome
 	for i := 0; i < tries; i++ {
 		last = replayCexFile(scratch, ov, pi, cex)
@@ -125,6 +188,25 @@ func replayNative(scratch string, ov map[string]string, pi pkgInfo, v *sym.Viola
 }
 
 func replayCexFile(scratch string, ov map[string]string, pi pkgInfo, cex string) replayOutcome {
+	return replayCexFileMode(scratch, ov, pi, cex, false)
+}
+
+func firstLineAfter(txt, marker string) string {
+	lines := strings.Split(txt, "\n")
+	for i, l := range lines {
+		if strings.Contains(l, marker) {
+			for _, n := range lines[i+1:] {
+				n = strings.TrimSpace(n)
+				if strings.HasPrefix(n, "/") || strings.Contains(n, ".go:") {
+					return n
+				}
+			}
+		}
+	}
+	return ""
+}
+
+func replayCexFileMode(scratch string, ov map[string]string, pi pkgInfo, cex string, race bool) replayOutcome {
 	hang := "20"
 	test := strings.ReplaceAll(strings.Replace(replayTestTmpl, "package PKGNAME", "package "+pi.PkgName, 1), "HANGSECS", hang)
 	testReal := filepath.Join(scratch, pi.HarnessDir+"_zz_verif_replay_test.go")
@@ -149,11 +231,19 @@ func replayCexFile(scratch string, ov map[string]string, pi pkgInfo, cex string)
 	}
 	env := append(os.Environ(), "GOFLAGS=-mod=mod", "GOPROXY=off", "GOSUMDB=off", "GOTOOLCHAIN=local", "VERIF_CEX="+cex)
 	bin := filepath.Join(scratch, pi.HarnessDir+".test")
+	if race {
+		bin = filepath.Join(scratch, pi.HarnessDir+".race.test")
+	}
 	if _, err := os.Stat(bin); err != nil {
 		// build the test binary once per package and run
 		bctx, bcancel := context.WithTimeout(context.Background(), 600*time.Second)
 		defer bcancel()
-		build := exec.CommandContext(bctx, "go", "test", "-c", "-o", bin, "-vet=off", "-tags", "verif", "-overlay", ovPath, sub)
+		bargs := []string{"test", "-c", "-o", bin, "-vet=off", "-tags", "verif", "-overlay", ovPath}
+		if race {
+			bargs = append(bargs, "-race")
+		}
+		bargs = append(bargs, sub)
+		build := exec.CommandContext(bctx, "go", bargs...)
 		build.Dir = repoDir
 		build.Env = env
 		if bout, err := build.CombinedOutput(); err != nil {
